@@ -43,6 +43,22 @@ fn sample(st: &Rc<RefCell<ClockSt>>, host: &'static str, what: &'static str) -> 
     e
 }
 
+thread_local! {
+    /// in one corner of the grid tearing a host's software down takes real time (a destructor
+    /// that sleeps on the wall clock): whatever runs between the creation of the new runtime and
+    /// the restart of the software then sees real time ahead of virtual time
+    static SLOW_TEARDOWN: std::cell::Cell<bool> = const { std::cell::Cell::new(false) };
+}
+
+struct SlowDrop;
+impl Drop for SlowDrop {
+    fn drop(&mut self) {
+        if SLOW_TEARDOWN.with(|s| s.get()) {
+            std::thread::sleep(Duration::from_millis(2));
+        }
+    }
+}
+
 /// the program every host runs: three tasks with different timer shapes
 async fn clock_program(st: Rc<RefCell<ClockSt>>, host: &'static str, d_ms: u64, finish_after_ms: Option<u64>) -> turmoil::Result {
     {
@@ -51,6 +67,7 @@ async fn clock_program(st: Rc<RefCell<ClockSt>>, host: &'static str, d_ms: u64, 
         g.starts.push((host, step));
     }
     let d = Duration::from_millis(d_ms);
+    let _slow = SlowDrop;
     let st1 = st.clone();
     tokio::task::spawn_local(async move {
         loop {
@@ -164,6 +181,7 @@ pub fn c05_scenario(ch: &mut Chooser, thorough: bool) -> Exec {
         }
     }
     let real_pause = tick == 1 && d1 == 1 && d2 == 2 && !random_order && epoch == epochs[0];
+    SLOW_TEARDOWN.with(|s| s.set(real_pause));
     let st_h1 = st.clone();
     let fin = if h1_finishes { Some(2 * tick + 1) } else { None };
     // the synchronous part of the software factory runs inside `Sim::bounce`; what it reads from
